@@ -133,6 +133,12 @@ pub struct RenderKnobs {
     pub use_extend: bool,
     /// JSON: include the built-in scalars and `__` introspection types
     pub json_builtins: bool,
+    /// SDL with `use_extend`: the object's LAST interface is declared by the extension block
+    /// (`extend type X implements I { .. }`), and two or more extension fields go into separate blocks
+    pub extend_implements: bool,
+    /// both formats: input-object fields of built-in scalar type carry a default value
+    /// (`limit: Int! = 10` / `"defaultValue": "10"`); defaults never change the generated types
+    pub input_defaults: bool,
     /// SDL: re-declare the built-in scalars (`scalar ID` …), as some schema printers do
     pub sdl_builtin_scalars: bool,
     /// JSON: wrap in `{"data": ..}`
@@ -152,11 +158,28 @@ impl Default for RenderKnobs {
             use_extend: false,
             json_builtins: true,
             sdl_builtin_scalars: false,
+            extend_implements: false,
+            input_defaults: false,
             json_wrapped: false,
             json_is_one_of: true,
             json_directives: true,
             deprecated_enum_values: true,
         }
+    }
+}
+
+/// the default-value literal used by the `input_defaults` render knob (built-in scalars and lists of them)
+pub fn input_default_literal(t: &ATy) -> Option<String> {
+    match t {
+        ATy::NonNull(i) => input_default_literal(i),
+        ATy::List(i) => input_default_literal(i).map(|_| "[]".to_string()),
+        ATy::Named(n) => match n.as_str() {
+            "Int" => Some("10".into()),
+            "Float" => Some("1.5".into()),
+            "String" => Some("\"dflt\"".into()),
+            "Boolean" => Some("true".into()),
+            _ => None,
+        },
     }
 }
 
@@ -276,11 +299,9 @@ impl ASchema {
                     out.push_str("}\n\n");
                 }
                 AType::Object { name, implements, fields, ext_fields } => {
-                    let imp = if implements.is_empty() {
-                        String::new()
-                    } else {
-                        format!(" implements {}", implements.join(" & "))
-                    };
+                    let by_extension = k.use_extend && k.extend_implements && !ext_fields.is_empty() && !implements.is_empty();
+                    let own: &[String] = if by_extension { &implements[..implements.len() - 1] } else { &implements[..] };
+                    let imp = if own.is_empty() { String::new() } else { format!(" implements {}", own.join(" & ")) };
                     out.push_str(&format!("type {}{} {{\n", name, imp));
                     for f in fields {
                         out.push_str(&format!("  {}: {}{}\n", f.name, f.ty.render(), dep(f)));
@@ -292,17 +313,26 @@ impl ASchema {
                     }
                     out.push_str("}\n\n");
                     if k.use_extend && !ext_fields.is_empty() {
-                        exts.push_str(&format!("extend type {} {{\n", name));
-                        for f in ext_fields {
-                            exts.push_str(&format!("  {}: {}{}\n", f.name, f.ty.render(), dep(f)));
+                        // one block per field when `extend_implements` (several `extend type X` blocks), else one block
+                        let blocks: Vec<&[AField]> = if k.extend_implements { ext_fields.chunks(1).collect() } else { vec![&ext_fields[..]] };
+                        for (bi, block) in blocks.iter().enumerate() {
+                            let eimp = if by_extension && bi == 0 { format!(" implements {}", implements[implements.len() - 1]) } else { String::new() };
+                            exts.push_str(&format!("extend type {}{} {{\n", name, eimp));
+                            for f in block.iter() {
+                                exts.push_str(&format!("  {}: {}{}\n", f.name, f.ty.render(), dep(f)));
+                            }
+                            exts.push_str("}\n\n");
                         }
-                        exts.push_str("}\n\n");
                     }
                 }
                 AType::Input { name, one_of, fields } => {
                     out.push_str(&format!("input {}{} {{\n", name, if *one_of { " @oneOf" } else { "" }));
                     for (n, t) in fields {
-                        out.push_str(&format!("  {}: {}\n", n, t.render()));
+                        let dflt = match (k.input_defaults, input_default_literal(t)) {
+                            (true, Some(l)) => format!(" = {}", l),
+                            _ => String::new(),
+                        };
+                        out.push_str(&format!("  {}: {}{}\n", n, t.render(), dflt));
                     }
                     out.push_str("}\n\n");
                 }
@@ -389,7 +419,8 @@ impl ASchema {
                         Value::Array(
                             fields
                                 .iter()
-                                .map(|(n, t)| json!({"name": n, "description": null, "type": t.to_json(&kind_of), "defaultValue": null}))
+                                .map(|(n, t)| json!({"name": n, "description": null, "type": t.to_json(&kind_of),
+                                    "defaultValue": if k.input_defaults { input_default_literal(t).map(Value::String).unwrap_or(Value::Null) } else { Value::Null }}))
                                 .collect(),
                         ),
                     );
@@ -593,7 +624,7 @@ pub fn random_schema(rng: &mut Rng, k: &SchemaKnobs) -> ASchema {
         }
         let (a, b) = (rng.range(1, 4), rng.range(0, 2));
         fields.extend(gen_fields(rng, a, b, &mut taken));
-        let ext_fields = if rng.chance(20) { gen_fields(rng, 1, 0, &mut taken) } else { vec![] };
+        let ext_fields = if rng.chance(30) { let n = rng.range(1, 2); gen_fields(rng, n, 0, &mut taken) } else { vec![] };
         types.push(AType::Object { name: o.clone(), implements, fields, ext_fields });
     }
     for u in &unions {
